@@ -1,8 +1,33 @@
 import GcArena.Proofs.WriteCapLemmas
 import GcArena.Generated.DerefWriteTable
+/-!
+# C13 — safe code cannot adopt a pointer without a write barrier
+
+Partial (DESIGN §6/§9): the calculus `GcArena.WriteCap` abstracts what a safe client program can
+derive from the `Write` API; that rustc admits exactly the programs the calculus describes is
+trusted and cross-checked by the compile probes (lib/eng_tables.py, probes/gen_tables.py).
+
+* `covered`           — for **every** table satisfying the hypothesis `Table.ok`, every derivable
+                         capability / `&mut` / unlocked store is on a place that cannot hold
+                         pointers or whose holders have all been barriered;
+* `table_ok`          — the table extracted from the current source tree satisfies the hypothesis
+                         (`decide`); fails on a tree with an unbounded `DerefWrite for &T` / `Rc<T>` /
+                         `Arc<T>` (defects D2a, D2b);
+* `cells_static`      — `Collect for Cell<T>` / `RefCell<T>` require `T: 'static`;
+* `unsound_witnesses` — for tables containing such an impl, explicit derivations with an uncovered
+                         holder, by the `from_mut` route (D2a) and the `Gc::write` route (D2b).
+-/
 namespace GcArena.C13
 open GcArena.WriteCap
 
+/-- Whatever the table, if it satisfies `Table.ok` — every safe constructor is `Gc::write` with a
+barrier, `from_static` with a `'static` bound, or `from_mut`; every `DerefWrite` / `IndexWrite` /
+`as_write` receiver owns its target exclusively **or** bounds it by `'static`; `field!` is a pure
+pattern; every `Unlock` impl stays in place behind an `unsafe fn`; no safe lock accessor hands out
+the cell without a barrier — then every item derivable by safe code is covered: its place is
+pointer-free, or a write barrier has been applied to every allocated object through which the
+place's storage is reachable.  Hence every `unlock`ed store is a guarded store of the collector
+model, to which C01 applies. -/
 theorem covered (t : Table) (hok : t.ok = true) (env : Env) (B : Obj → Prop) (it : Item)
     (h : Der t env B it) : Covered env B it := by
   obtain ⟨hc, hp, hu, hf, hfm⟩ := Table.ok_unpack hok
@@ -51,8 +76,11 @@ theorem covered (t : Table) (hok : t.ok = true) (env : Env) (B : Obj → Prop) (
     have := hf f hm
     simp [hbad] at this
 
+/-- The table extracted from the current source tree satisfies the hypothesis of `covered`. -/
 theorem table_ok : Generated.derefWriteTable.ok = true := by decide
 
+/-- Plain interior mutability cannot hold pointers: every `Collect` impl for a std cell type bounds
+its content by `'static` and has `NEEDS_TRACE = false` with no `trace`. -/
 theorem cells_static : Generated.derefWriteTable.cellsStatic = true := by decide
 
 
